@@ -28,7 +28,27 @@ class Undefined(Exception):
     pass
 
 
+def _list_fn(name):
+    """executable meaning of the list-theory symbols (python lists; lat outside the list is undefined)"""
+    if name.startswith('llen_'):
+        return lambda l: len(l)
+    if name.startswith('lat_'):
+        return lambda l, i: l[i] if 0 <= i < len(l) else _undef()
+    if name.startswith('lapp_'):
+        return lambda l, x: list(l) + [x]
+    if name.startswith('lcat_'):
+        return lambda a, b: list(a) + list(b)
+    if name.startswith('lpre_'):
+        return lambda l, i: sum(l[:i]) if 0 <= i <= len(l) else _undef()
+    if name.startswith('lsum_'):
+        return lambda l: sum(l)
+    return None
+
+
 def concrete_fn(name):
+    lf = _list_fn(name)
+    if lf is not None:
+        return lf
     table = {
         'shr': lambda x, a: P.shr(x, a) if 0 <= a <= 4096 else _undef(),
         'low': lambda x, a: P.low(x, a) if 0 <= a <= 4096 else _undef(),
@@ -69,6 +89,8 @@ def ev(t, env):
         n = t.decl().name()
         if n == 'bempty':
             return b''
+        if n.startswith('lempty_'):
+            return []
         if n in env:
             return env[n]
         raise KeyError(n)
@@ -147,12 +169,24 @@ def rand_value(rng, sort):
         return bytes(rng.getrandbits(8) for _ in range(rng.choice([0, 1, 1, 2, 3, 5, 8, 9])))
     if s == 'Bool':
         return rng.random() < 0.5
+    if s.startswith('List_'):
+        inner = {'Int': 'Int', 'Real': 'Real', 'Bytes': 'Bytes'}.get(s[5:])
+        if inner is None:
+            raise KeyError(s)
+
+        class _S:
+            def __str__(self):
+                return inner
+        return [rand_value(rng, _S()) for _ in range(rng.choice([0, 1, 2, 3, 5]))]
     raise KeyError(s)
 
 
 def check_axioms(rng, n):
     bad, tried, held = [], 0, 0
     named = list(T.AXIOMS)
+    _TY = TY
+    for srt in (z3.IntSort(), z3.RealSort(), T.Bytes):
+        named += [(nm, ax_) for nm, ax_ in _TY.list_theory(srt).axioms if not nm.startswith('lext_')]
     for name, ax in named:
         if not z3.is_quantifier(ax):
             try:
@@ -228,6 +262,21 @@ def check_schemas(rng, n):
             params = [a.arg for a in st.args.args]
             ok_nontrivial = 0
             for _ in range(n):
+                if ('container' in params or 'definition' in params) and 'packet' not in params:
+                    args = _walk_args(rng, params)
+                    tried += 1
+                    try:
+                        r = fn(*args)
+                    except (IndexError, AttributeError, KeyError):
+                        continue        # the guard of the schema is false on this instance (implies is eager natively)
+                    except Exception as e:   # noqa
+                        bad.append((st.name, f'raised {type(e).__name__}: {e}'))
+                        break
+                    if not r:
+                        bad.append((st.name, f'FALSE on a random container tree (i = {args[-1]})'))
+                        break
+                    ok_nontrivial += 1
+                    continue
                 if 'packet' in params:
                     args = _criteria_args(rng, params)
                     tried += 1
@@ -262,6 +311,55 @@ def check_schemas(rng, n):
             if ok_nontrivial == 0:
                 bad.append((st.name, 'never evaluated'))
     return tried, bad
+
+
+def _walk_args(rng, params):
+    """(container, i): a random tree of containers whose entry lists mix parameters and nested containers"""
+    class IntegerDataEncoding:
+        def __init__(self):
+            self.size_in_bits = rng.choice([0, 1, 8, 16])
+            self.encoding = rng.choice(['unsigned', 'signed', 'twosComplement', 'bogus'])
+            self.default_calibrator = None
+            self.context_calibrators = None
+
+    class IntegerParameterType:
+        def __init__(self):
+            self.encoding = IntegerDataEncoding()
+
+    class Parameter:
+        def __init__(self, name):
+            self.name = name
+            self.parameter_type = IntegerParameterType()
+
+    class SequenceContainer:
+        def __init__(self, entries):
+            self.entry_list = entries
+
+    def tree(depth):
+        es = []
+        for k in range(rng.randint(0, 4)):
+            if depth > 0 and rng.random() < 0.4:
+                es.append(tree(depth - 1))
+            else:
+                es.append(Parameter(f"P{rng.randint(0, 99)}"))
+        return SequenceContainer(es)
+    c = tree(3)
+    out = []
+
+    class Definition:
+        def __init__(self):
+            self.containers = {f"C{k}": tree(2) for k in range(rng.randint(0, 3))}
+    for p in params:
+        if p == 'container':
+            out.append(c)
+        elif p == 'definition':
+            out.append(Definition())
+        elif p == 'name':
+            out.append(rng.choice(['C0', 'C1', 'C2', 'NOPE']))
+        else:
+            # an index whose entry is of the kind the schema speaks about when there is one (else any valid index)
+            out.append(rng.randint(0, max(0, len(c.entry_list) - 1)))
+    return out
 
 
 def _criteria_args(rng, params):
